@@ -58,38 +58,35 @@ func configs(r *runner.Run) []qmodel.Config {
 	return all
 }
 
+type job struct {
+	backend string
+	depth   int
+	cfg     qmodel.Config
+}
+
 func TestCheck(t *testing.T) {
 	r := runner.Start("C02", "model_checking")
-	deadline := r.Deadline(75*time.Second, 14*time.Minute)
-	cfgs := configs(r)
-	type job struct {
-		backend string
-		depth   int
+	var jobs []job
+	for _, cfg := range configs(r) {
+		jobs = append(jobs, job{"memory", runner.Pick(r, 5, 6), cfg}, job{"sqlite", runner.Pick(r, 4, 5), cfg})
 	}
-	jobs := []job{{"memory", runner.Pick(r, 3, 5)}, {"sqlite", runner.Pick(r, 3, 4)}}
-	total := len(cfgs) * len(jobs)
-	i := 0
-	for _, j := range jobs {
-		for _, cfg := range cfgs {
-			// split the remaining budget evenly over the remaining runs
-			rem := time.Until(deadline)
-			per := rem / time.Duration(total-i)
-			i++
-			spec := qcheck.Spec{Name: "c02", Backend: j.backend, Cfg: cfg, Alpha: alpha(), Depth: j.depth,
-				MaxTrans: runner.Pick(r, int64(3_000_000), int64(40_000_000)), Deadline: time.Now().Add(per),
-				Extra: func(pre, post *qmodel.Model, op qmodel.Op, obs *qmodel.Obs) string {
-					return ""
-				},
+	par := 12
+	waves := (len(jobs) + par - 1) / par
+	budget := runner.Pick(r, 70*time.Second, 13*time.Minute) / time.Duration(waves)
+	if ji, ok := runner.Job(); ok {
+		j := jobs[ji]
+		spec := qcheck.Spec{Name: "c02", Backend: j.backend, Cfg: j.cfg, Alpha: alpha(), Depth: j.depth, Workers: 4,
+			MaxTrans: runner.Pick(r, int64(3_000_000), int64(40_000_000)), Deadline: time.Now().Add(budget)}
+		res := qcheck.Run(spec)
+		for e := range res.Edges {
+			if !legalEdges[e] {
+				r.Violation("illegal-edge:"+e, fmt.Sprintf("state transition outside the documented machine: %s (backend %s, config %s)", e, j.backend, res.ConfigLabel), map[string]any{"edge": e}, nil)
 			}
-			res := qcheck.Run(spec)
-			for e := range res.Edges {
-				if !legalEdges[e] {
-					r.Violation("illegal-edge:"+e, fmt.Sprintf("state transition outside the documented machine: %s (backend %s, config %s)", e, j.backend, res.ConfigLabel), map[string]any{"edge": e}, nil)
-				}
-			}
-			qcheck.Report(r, spec, res)
 		}
+		qcheck.Report(r, spec, res)
+		r.Finish()
 	}
+	r.RunJobs(len(jobs), par, budget+2*time.Minute)
 	r.Assume("Postgres backend not executed (no server in the sandbox)")
 	r.Assume("alphabet: ids a,b,c on routes /r1,/r1,/r2 and targets t1,t2,t1; see DESIGN.md §6 C02")
 	r.Set("rule", "every operation sequence over the alphabet up to the depth per backend/config; a state is distinct by canonical implementation dump; non-trivial = distinct (operation kind, result class) pairs and distinct observed state-machine edges")
